@@ -283,8 +283,8 @@ var opTable = func() []string {
 		op string
 		n  int
 	}{
-		{"begin", 24}, {"put", 9}, {"del", 3}, {"get", 4}, {"scan", 2}, {"commit", 15}, {"rollback", 12},
-		{"abandon", 9}, {"bad_get", 4}, {"cleanup_stale", 6}, {"cleanup_conn", 7}, {"shutdown", 1},
+		{"begin", 22}, {"put", 14}, {"del", 4}, {"get", 3}, {"scan", 2}, {"commit", 16}, {"rollback", 10},
+		{"abandon", 8}, {"bad_get", 4}, {"cleanup_stale", 5}, {"cleanup_conn", 6}, {"shutdown", 1},
 	}
 	var out []string
 	for _, e := range w {
